@@ -9,12 +9,14 @@
 //     loop goroutine parked in its select and every worker either in its channel
 //     receive or parked inside the script's executor; or the loop goroutine busy-waiting
 //     (Now() counter advancing) with unchanged workers/log.
-//     The Mock cannot represent a timer re-armed with a negative duration (it moves its
-//     clock BACKWARDS and Set() live-locks), so a script is cut before an event that
-//     would make the scheduler evaluate its "minimum not due yet" branch.
-//   - real: the real clock, schedules of 2s granularity, actions on odd seconds.  Used
-//     for the scripts that do reach that branch: the driver counts Now() calls to see
-//     whether the loop spins while nothing is due.
+//     Stale timers (Release / re-Schedule of the earliest task) fire on the way and
+//     exercise the "minimum not due yet" branch of the main loop.  (Before that branch
+//     was repaired it re-armed with a NEGATIVE duration, which the Mock cannot
+//     represent: it moves its clock backwards and Set() live-locks; a regression shows
+//     up as "mock clock Set did not return" / watchdog failures.)
+//   - real: the real clock, schedules of 2s granularity, actions on odd seconds: the
+//     same stale-timer shapes; the driver counts Now() calls to see whether the loop
+//     spins while nothing is due (the behaviour before the repair).
 package main
 
 import (
@@ -35,7 +37,10 @@ import (
 	"verifh/vh"
 )
 
-const knownSig = "C24-stale-when-negative-rearm-spin"
+// open (narrowed) finding: When() is stale between a Release/re-Schedule of the earliest
+// task and the next timer fire.  The spin (C24-stale-when-negative-rearm-spin) is repaired:
+// a spin or a non-positive re-arm is never tolerated by the judge.
+const knownSig = "C24-when-stale-until-timer-fires"
 
 // ---- case format ----
 
@@ -352,28 +357,16 @@ func (r *runner) inflight(id uint64) bool {
 	return r.ex.inflight[id] > 0
 }
 
-// safe (mock mode): would this event make the scheduler evaluate its "minimum is not
-// due yet" branch (negative re-arm), or arm the timer while the loop is busy-waiting?
+// safe (mock mode): may this event be issued?  Since the repair of the main loop (the
+// "minimum not due yet" branch re-arms with a positive delay) stale timers are harmless
+// under the Mock and are exercised freely.  Only one shape is still avoided: a Schedule
+// that arms the timer while the loop goroutine is busy-waiting (the Mock's Tick blocks
+// on a full timer channel while holding the clock mutex: a mock-only dead-lock).
 func (r *runner) safe(e jev) bool {
 	now := r.nowS()
 	switch e.E {
 	case "advance":
-		if e.T < now {
-			return false
-		}
-		if !r.idle {
-			return true
-		}
-		w := r.s.When()
-		if w.IsZero() || r.secs(w) > e.T {
-			return true
-		}
-		stop := r.secs(w)
-		if stop < now {
-			stop = now
-		}
-		m, ok := r.minWhen(0, false)
-		return !ok || m <= stop
+		return e.T >= now
 	case "schedule":
 		if r.idle {
 			return true
@@ -382,14 +375,6 @@ func (r *runner) safe(e jev) bool {
 		if w := r.s.When(); w.IsZero() || nw < r.secs(w) {
 			return false
 		}
-		m, ok := r.minWhen(e.ID, true)
-		return (ok && m <= now) || nw <= now
-	case "release":
-		if r.idle {
-			return true
-		}
-		m, ok := r.minWhen(e.ID, true)
-		return !ok || m <= now
 	}
 	return true
 }
@@ -632,7 +617,7 @@ func runMockInner(c *jcase, replay bool, publish func(*jcase)) {
 				}
 				e = evs[i]
 				if !r.safe(e) {
-					c.Cut = fmt.Sprintf("event %d (%s) not issued: it would make the scheduler re-arm its timer with a negative duration, which the mock clock cannot represent (see real-mode cases)", i, e.E)
+					c.Cut = fmt.Sprintf("event %d (%s) not issued: it would arm the timer while the loop goroutine busy-waits (mock-only dead-lock shape)", i, e.E)
 					if replay {
 						c.Evs = c.Evs[:i]
 					}
@@ -816,7 +801,7 @@ func add(w *vh.W, c *jcase) {
 
 func main() {
 	w := vh.New("C24", "From Verif Require Import Base.Prelude Model.C24.", "case", "check")
-	w.Rule = "event scripts (Schedule @every d with offset and lastScheduled / Release / clock advance / parked run returns) over <=3 tasks on the real TreeScheduler with 1-4 workers; hand-picked scripts first (3 of them on the REAL clock: the stale-timer shapes), then random scripts of 4-14 events generated on the fly under the mock clock (an event that would drive the scheduler into its negative re-arm branch is never issued there). Tasks whose runs are parked are only used when all tasks of the script hash to distinct workers. Non-trivial: >=3 executions, or a busy-wait state, or a release of a scheduled task. Distinct: distinct Gallina terms."
+	w.Rule = "event scripts (Schedule @every d with offset and lastScheduled / Release / clock advance / parked run returns) over <=3 tasks on the real TreeScheduler with 1-4 workers; hand-picked scripts first (3 of them on the REAL clock: the stale-timer shapes, with a Now()-call counter as spin detector), then random scripts of 4-14 events generated on the fly under the mock clock, stale timers included. Tasks whose runs are parked are only used when all tasks of the script hash to distinct workers. Non-trivial: >=3 executions, or a busy-wait state, or a release of a scheduled task. Distinct: distinct Gallina terms."
 	var rc jcase
 	if w.ReplayCase(&rc) {
 		if rc.Mode == "real" {
